@@ -1,5 +1,7 @@
 """C05 - view --region returns exactly the records of the nodes under the region."""
 
+import os
+
 from mc import framework as fw
 from mc import rgfa
 from mc import gen
@@ -180,11 +182,44 @@ def prefix_contigs(res, scratch):
             res.count("files_with_prefix_contig_names")
 
 
+def cli_regions(res, scratch):
+    """the real command line (`python -m gaftools view ... -r ...`) on regions of every contig of a layout, haplotype contig
+    names with '#' and '-' included: same lines and same success / failure as view.run"""
+    import subprocess
+    import sys
+
+    L = gen.Layout((2, 1), "separated2+second", 1)
+    g = vi.graph_for(L, "realistic")
+    recs = [r for r, st in vi.walk_records(g, L, 1)]
+    P = c04.Prepared(scratch, g, L, "realistic", False, "all", recs, "plain", "cli")
+    if P.ind is None:
+        res.fail("C05/index-failed", f"index failed: {P.index_out.brief()}", P.case({"regions": []}, None))
+        return
+    env = dict(os.environ)
+    env["PYTHONPATH"] = fw.REPO + os.pathsep + env.get("PYTHONPATH", "")
+    for c in g.contigs():
+        end = contig_end(g, c)
+        for rl in ([(c, 0, end - 1)], [(c, 0, 0), ("chr1", 0, 1)]):
+            args = [x for r in rl for x in ("-r", rstr(r))]
+            out, lines = c04.run_view(P, regions=[rstr(r) for r in rl])
+            p = subprocess.run([sys.executable, "-m", "gaftools", "view", P.gaf_path] + args, stdout=subprocess.PIPE, stderr=subprocess.PIPE, env=env, cwd=scratch)
+            cl = p.stdout.decode().split("\n")
+            if cl and cl[-1] == "":
+                cl = cl[:-1]
+            res.evaluations += 1
+            res.nt(fw.h64(["cli", rl]))
+            res.count("command_line_runs")
+            if (p.returncode == 0) != (out.kind == "ok") or (out.kind == "ok" and cl != lines):
+                res.fail("C05/cli-differs", f"`gaftools view {' '.join(args)}` exits {p.returncode} with {len(cl)} lines ({p.stderr.decode().strip()[-160:]!r}); view.run: {out.brief()}, {len(lines)} lines",
+                         P.case({"regions": [list(r) for r in rl], "cli": True}, None))
+
+
 def run_shard(spec, tier, scratch):
     res = fw.ShardResult().begin(spec, tier)
     b = bounds(tier)
     if spec.get("prefix_contigs"):
         prefix_contigs(res, scratch)
+        cli_regions(res, scratch)
         return res
     if spec.get("long_contig"):
         long_contig(res, scratch)
